@@ -3,9 +3,9 @@ open Model
 open Sx
 
 let kind_of = function
-  | "simple" -> KSimple | "directed" -> KDirected | "bipartite" -> KBipartite
+  | "simple" -> GioSimple | "directed" -> GioDirected | "bipartite" -> GioBipartite
   | s -> raise (Bad ("kind " ^ s))
-let kind_str = function KSimple -> "simple" | KDirected -> "directed" | KBipartite -> "bipartite"
+let kind_str = function GioSimple -> "simple" | GioDirected -> "directed" | GioBipartite -> "bipartite"
 let gtype_of = function
   | "simple" -> TSimple | "digraph" -> TDigraph | "dag" -> TDag | "bipartite" -> TBipartite
   | s -> raise (Bad ("graph type " ^ s))
